@@ -54,6 +54,9 @@ def _work(desc):
     if consistent:
         for kind, a in pts:
             res["n_user_points"] += 1
+            if a.shape != lbs.shape:
+                res["fails"].append(f"{kind} point {a.tolist()} has {a.size} components for a problem in {n} variables: it is not a point of the user's space")
+                break
             if not (np.all(lbs <= a) and np.all(a <= ubs)):
                 res["fails"].append(f"{kind} point {a.tolist()} violates the bounds")
                 break
